@@ -2,7 +2,7 @@
    M = giv_modulo, A = giv_multiplier (Params.v, regenerated from givrandom.h on every run).
    "orc" is GMP's generator as an oracle: any function honouring the documented range of mpz_urandomb / mpz_urandomm. *)
 From Coq Require Import ZArith.
-From C20 Require Import Params Model ProofsLcg ProofsInt ProofsOrder ProofsRing.
+From C20 Require Import Params Model Model2 ProofsLcg ProofsInt ProofsOrder ProofsRing ProofsDest.
 Local Open Scope Z_scope.
 
 (* --- GivRandom *)
@@ -86,3 +86,32 @@ Theorem C20_modular_recint_random : Modru_random_stmt.            Proof. exact m
 Print Assumptions C20_modular_recint_random.
 Theorem C20_modular_recint_nonzerorandom : Modru_nonzerorandom_stmt. Proof. exact modru_nonzerorandom_range. Qed.
 Print Assumptions C20_modular_recint_nonzerorandom.
+(* --- phase 3: destinations that are not fresh, iterator classes as objects, Montgomery forms *)
+Theorem C20_poly_random_destination_independent : Poly_into_indep_verdict. Proof. exact poly_into_indep. Qed.
+Print Assumptions C20_poly_random_destination_independent.
+Theorem C20_poly_random_gfq_destination_independent : Poly_gfq_into_indep_verdict. Proof. exact poly_gfq_into_indep. Qed.
+Print Assumptions C20_poly_random_gfq_destination_independent.
+Theorem C20_poly_sequence_on_one_destination : Poly_seq_verdict.  Proof. exact poly_seq_thm. Qed.
+Print Assumptions C20_poly_sequence_on_one_destination.
+Theorem C20_poly_sequence_gfq_on_one_destination : Poly_seq_gfq_verdict. Proof. exact poly_seq_gfq_thm. Qed.
+Print Assumptions C20_poly_sequence_gfq_on_one_destination.
+Theorem C20_integer_draw_destination_independent : Int_dest_indep_stmt. Proof. exact int_dest_indep. Qed.
+Print Assumptions C20_integer_draw_destination_independent.
+Theorem C20_randiter_reproducible : Randiter_repro_stmt.          Proof. exact randiter_repro. Qed.
+Print Assumptions C20_randiter_reproducible.
+Theorem C20_randiter_run_canonical : Randiter_run_stmt.           Proof. exact randiter_run. Qed.
+Print Assumptions C20_randiter_run_canonical.
+Theorem C20_gmp_seeding_iterators_reproducible : Gmp_iter_ctor_stmt. Proof. exact gmp_iter_ctor. Qed.
+Print Assumptions C20_gmp_seeding_iterators_reproducible.
+Theorem C20_modular_integer_randiter_seeding : Mii_seeding_stmt.  Proof. exact mii_seeding. Qed.
+Print Assumptions C20_modular_integer_randiter_seeding.
+Theorem C20_modular_integer_nonzero_randiter : Modint_nonzero_stmt. Proof. exact modint_nonzero_range. Qed.
+Print Assumptions C20_modular_integer_nonzero_randiter.
+Theorem C20_montgomery_reduction : Mg_reduc_stmt.                 Proof. exact mg_reduc_thm. Qed.
+Print Assumptions C20_montgomery_reduction.
+Theorem C20_montgomery_recint_random : Mgru_random_stmt.          Proof. exact mgru_random_thm. Qed.
+Print Assumptions C20_montgomery_recint_random.
+Theorem C20_montgomery_recint_nonzerorandom : Mgru_nonzerorandom_stmt. Proof. exact mgru_nonzerorandom_thm. Qed.
+Print Assumptions C20_montgomery_recint_nonzerorandom.
+Theorem C20_rmint_mga_rand : Rm_mga_rand_stmt.                    Proof. exact rm_mga_rand_thm. Qed.
+Print Assumptions C20_rmint_mga_rand.
